@@ -186,6 +186,8 @@ def arm_decisions(cx, m, kind):
     idx, evs, arm = m.arms[kind]
     cid = m.closure.entry['id'] if m.closure is not None else None
     out = []
+    from ..alpha import Alpha
+    al = Alpha(m.fw.fn)
     for e in evs:
         if cid is not None and any(c.get('id') == cid for c in e.ctx):
             continue
@@ -208,15 +210,29 @@ def arm_decisions(cx, m, kind):
                     conds.append((t[len('self.'):], pol))
                 else:
                     other.append(ctx_s((c,)))
-            elif c['k'] in ('arm', 'iflet', 'for', 'survive'):
+            elif c['k'] == 'arm':
+                other.append('arm %s of match %s' % (__import__('sa.syn', fromlist=['pat_shape']).pat_shape(c['pat']), al.text(c['scrut'])))
+            elif c['k'] in ('iflet', 'for', 'survive'):
                 other.append(ctx_s((c,)))
         if e.kind == 'exit' and e.how == 'return':
             out.append((frozenset(conds), ('exit', ret_value_kind(e)), tuple(other), e))
         elif e.kind == 'assign':
-            out.append((frozenset(conds), ('assign', es(e.target), es(e.value)), tuple(other), e))
+            out.append((frozenset(conds), ('assign', es(e.target), al.text(e.value)), tuple(other), e))
         elif e.kind == 'let' and e.init is not None and e.init['k'] != 'Closure' and kind != 'List':
             out.append((frozenset(conds), ('let', e.defs[0].name if e.defs else '?', es(e.init)), tuple(other), e))
     return out
+
+
+def default_ty_param_ok(f, text):
+    """the `$i` handed to auto_adjust_expr is the parameter that carries the field's type"""
+    import re
+    mm = re.search(r'Some\(\$(\d+)\)\)\)$', text)
+    typed = [a for a in f.sig['inputs'] if a['k'] == 'Typed']
+    if not mm or int(mm.group(1)) >= len(typed):
+        return False
+    a = typed[int(mm.group(1))]
+    from ..syn import ty_s
+    return 'Type' in ty_s(a['ty'])
 
 
 def check_forms(cx, facts, rep, mp, m):
@@ -282,7 +298,7 @@ def check_forms(cx, facts, rep, mp, m):
     elif kind == 'default-field':
         sw = sw_of.get('expression')
         a = [x for x in assigns if x[1][1] == 'expression']
-        ok = (len(a) == 1 and a[0][1][2].replace(' ', '') == 'Some(auto_adjust_expr(name_value.value.clone(),Some(ty)))'
+        ok = (len(a) == 1 and a[0][1][2] in ('Some(auto_adjust_expr(name_value.value.clone(),Some($1)))', 'Some(auto_adjust_expr(name_value.value.clone(),Some($2)))') and default_ty_param_ok(m.fw.fn, a[0][1][2])
               and len(errs) == 1 and errs[0][0] == frozenset([(sw, False)]) and len(assigns) == 1 and a[0][0] <= frozenset([(sw, True)]))
         sh = {'expression': sw}
         msg = '`Default = expr` must set the (auto-adjusted) expression exactly when `expression` is enabled'
@@ -295,8 +311,10 @@ def check_forms(cx, facts, rep, mp, m):
         ok = (conds_n == {frozenset([(swn, True), (swi, True)]), frozenset([(swn, True), (swi, False)])}
               and conds_i == {frozenset([(swn, True), (swi, True)]), frozenset([(swn, False), (swi, True)])}
               and len(errs) == 1 and errs[0][0] == frozenset([(swn, False), (swi, False)])
-              and all(x[1][2].replace(' ', '') in ('FieldName::Custom(ident)', 'FieldName::Custom(meta_name_value_2_ident(name_value)?)') for x in an)
-              and all(x[1][2].replace(' ', '') in ('!b', '!meta_name_value_2_bool(name_value)?') for x in ai))
+              and all((x[1][2] == 'FieldName::Custom(ident)' and x[2] == ('arm IdentOrBool::Ident(_) of match meta_name_value_2_ident_and_bool(name_value)?',))
+                      or (x[1][2] == 'FieldName::Custom(meta_name_value_2_ident(name_value)?)' and not x[2]) for x in an)
+              and all((x[1][2] == '!bool' and x[2] == ('arm IdentOrBool::Bool(_) of match meta_name_value_2_ident_and_bool(name_value)?',))
+                      or (x[1][2] == '!meta_name_value_2_bool(name_value)?' and not x[2]) for x in ai))
         sh = {'name': swn, 'ignore': swi}
         msg = '`Debug = Name` / `Debug = false` on a field must follow the name/ignore switches'
     m.shorthand = sh
